@@ -33,7 +33,7 @@ func emptinessTests(fn *ssa.Function, isPayload func(ssa.Value) bool) map[ssa.Va
 			return
 		}
 		b, isB := call.Call.Value.(*ssa.Builtin)
-		if !isB || b.Name() != "len" || !ssax.AnyIn(ssax.Backward(call.Call.Args[0]), isPayload) {
+		if !isB || b.Name() != "len" || !ssax.AnyIn(ssax.Backward(rawArgs(call)[0]), isPayload) {
 			return
 		}
 		switch {
@@ -141,8 +141,8 @@ func c07(c *core.Ctx) {
 			args := ssax.Args(a.Instr)
 			var copyRecv ssa.Value
 			for v := range ssax.Backward(args[0]) {
-				if call, ok := v.(*ssa.Call); ok && call.Call.StaticCallee() != nil && call.Call.StaticCallee().Name() == "Copy" && ssax.TypeName(call.Call.Args[0].Type()) == "gmqtt.Message" {
-					copyRecv = call.Call.Args[0]
+				if call, ok := v.(*ssa.Call); ok && call.Call.StaticCallee() != nil && call.Call.StaticCallee().Name() == "Copy" && ssax.TypeName(rawArgs(call)[0].Type()) == "gmqtt.Message" {
+					copyRecv = rawArgs(call)[0]
 				}
 			}
 			if !c.Check(copyRecv != nil, "C07.R1", fmt.Sprintf("publishHandler|copy|AddOrReplace#%d", i), ipos(c, a.Instr), "the store receives a private Copy()", "the retained store receives the live message object, not a Copy(): later mutation (QoS clamp, flags) leaks into the retained message") {
@@ -298,7 +298,7 @@ func c07(c *core.Ctx) {
 								// closures of the helper that append
 								for _, a := range sc.AnonFuncs {
 									for _, cs := range ssax.Calls(a, false, ssax.ByName("builtin:append")) {
-										for _, arg := range cs.Instr.Common().Args[1:] {
+										for _, arg := range rawArgs(cs.Instr)[1:] {
 											for w := range ssax.Backward(arg) {
 												if ld := ssax.LoadOfField("retained/trie.topicNode.msg"); ld(w) {
 													ok, where = false, cs.Instr
